@@ -547,6 +547,9 @@ class Spectrum(numpy.ma.masked_array):
         new_fs = Spectrum(new_data, pop_ids=new_pop_ids)
         # Copy over extrapolation info
         new_fs.extrap_x = self.extrap_x
+        # Combining populations preserves the total allele count of each entry,
+        # so a folded Spectrum remains folded.
+        new_fs.folded = self.folded
 
         # Fill new spectrum
         for index in np.ndindex(self.shape):
